@@ -200,7 +200,7 @@ def coq_eval(work, header, expr, name="probe"):
     path = os.path.join(work, name + ".v")
     with open(path, "w") as f:
         f.write(header + "\nEval vm_compute in (%s).\n" % expr)
-    rc, out = sh(["timeout", "300", "coqc", "-Q", COQ, "Plotink", path], 320)
+    rc, out = sh(["timeout", "150", "coqc", "-Q", COQ, "Plotink", path], 170)
     return rc, out.strip()
 
 # ------------------------------------------------------------------- findings
@@ -258,7 +258,7 @@ def kernel_obligations(work, pid, source, names, mode="q"):
     path = os.path.join(work, "Kernels_%s.v" % pid)
     with open(path, "w") as f:
         f.write(open(os.path.join(eqdir, "header.v" if mode == "q" else "header_zq.v")).read() + text + open(os.path.join(eqdir, pid + ".v")).read())
-    rc, out = sh(["timeout", "300", "coqc", "-Q", COQ, "Plotink", path], 320)
+    rc, out = sh(["timeout", "150", "coqc", "-Q", COQ, "Plotink", path], 170)
     lemmas = re.findall(r"^Lemma\s+(\w+)", open(os.path.join(eqdir, pid + ".v")).read(), re.M)
     return [(label, True, ""),
             ("regenerated kernels = hand model (%s)" % ", ".join(lemmas), rc == 0, out[-1500:] if rc != 0 else "")]
